@@ -1,8 +1,16 @@
 // ---- unknown-word vocabulary: spec_unk is written from the statement of C03, not from the code ----
+// R4: the `F: FnMut(UnkWord)` callback becomes a sink object whose ghost log records every call
 pub trait UnkSink: Sized {
     spec fn log(&self) -> Seq<UnkWord>;
+    spec fn inv(&self) -> bool;
+    spec fn accepts(&self, w: UnkWord) -> bool;
+    /// the part of the sink a call never changes (what the closure captured by value / shared reference)
+    type Ctx;
+    spec fn ctx(&self) -> Self::Ctx;
     fn call(&mut self, w: UnkWord)
-        ensures final(self).log() == old(self).log().push(w);
+        requires old(self).inv(), old(self).accepts(w),
+        ensures final(self).inv(), final(self).log() == old(self).log().push(w), final(self).ctx() == old(self).ctx(),
+            forall|x: UnkWord| old(self).accepts(x) ==> #[trigger] final(self).accepts(x);
 }
 
 pub open spec fn unk_word_of(e: UnkEntry, id: int, start: int, end: int) -> UnkWord {
@@ -71,5 +79,19 @@ impl UnkHandler {
     }
     pub open spec fn ids_in_range(&self, num_left: int, num_right: int) -> bool {
         forall|k: int| 0 <= k < self.entries.len() ==> (#[trigger] self.entries[k]).left_id < num_left && self.entries[k].right_id < num_right
+    }
+}
+
+impl UnkHandler {
+    /// shape of every word gen_unk_words may emit at `start` (C01/C03 corollaries of the rule)
+    pub open spec fn emittable(&self, sent: &Sentence, start: int, w: UnkWord) -> bool {
+        let c = sent.cinfos[start].s_base_id() as int;
+        &&& w.start_char as int == start
+        &&& start < w.end_char as int <= sent.cinfos.len()
+        &&& self.offsets[c] <= w.word_id as int && (w.word_id as int) < self.offsets[c + 1]
+        &&& (w.word_id as int) < self.entries.len()
+        &&& w.left_id == self.entries[w.word_id as int].left_id
+        &&& w.right_id == self.entries[w.word_id as int].right_id
+        &&& w.word_cost == self.entries[w.word_id as int].word_cost
     }
 }
